@@ -22,6 +22,9 @@ ALLOC_EXC = {
 }
 
 
+from vlib import sym
+
+
 def run(ck):
     ck.explanation = ("Decides writer/reader agreement of codec steps for every Serial/Deserial pair of the contract-side library, "
                       "tag totality, strict ordering of ordered collections, bounded pre-allocation, and that checked arithmetic "
@@ -34,6 +37,37 @@ def run(ck):
     ck.floor("SYM", "Serial/Deserial pairs", npairs, 60)
     sym_sweep(ck, c, ws, rs, 40, 10, exceptions=SYM_EXC)
     tag_totality(ck, rs, 8)
+    # schema-directed (length-prefixed) forms and the element helpers they share with the plain forms
+    nctx = 0
+    cw, cr = pairs(c, r"SerialCtx$", r"DeserialCtx$", "serial_ctx", "deserial_ctx")
+    for ty in sorted(set(cw) & set(cr)):
+        w, r = Fn(cw[ty]), Fn(cr[ty])
+
+        def norm(f, side):
+            out = []
+            for t in sym.tokens(f, side):
+                k = sym.canon(t)[0]
+                k = ("LEN",) if k[0] == "X" and k[1] in ("serial_length", "deserial_length") else k
+                if not out or out[-1] != k:
+                    out.append(k)
+            return out
+        tw, tr = norm(w, "w"), norm(r, "r")
+        if any(k[0] == "X" for k in tw):
+            continue        # the writer delegates to the slice form; nothing to compare at this level
+        nctx += 1
+        ck.ob("SYM", ty, "ctx-pair", tw == tr, "length prefix, then the shared element helper: %s" % tw if tw == tr else "writer %s / reader %s" % (tw, tr), w.loc())
+    ck.floor("SYM", "SerialCtx/DeserialCtx collection pairs", nctx, 4)
+    nh = 0
+    for nm in ("vector", "map", "hashmap", "set", "hashset"):
+        wb, rb = c.get_all(CC + "::impls::serial_%s_no_length" % nm), c.get_all(CC + "::impls::deserial_%s_no_length" % nm)
+        if not ck.anchor(len(wb) == 1 and len(rb) == 1, "SYM", nm + "_no_length", "helper pair exists"):
+            continue
+        w, r = Fn(wb[0]), Fn(rb[0])
+        tw, tr = [sym.canon(t)[0] for t in sym.tokens(w, "w")], [sym.canon(t)[0] for t in sym.tokens(r, "r")]
+        nh += 1
+        ck.ob("SYM", CC + "::impls::*_%s_no_length" % nm, "helper-pair", tw == tr and len(tw) >= 1,
+              "per element the writer writes and the reader reads %s" % tw if tw == tr and tw else "writer writes %s per element, reader reads %s" % (tw, tr), w.loc())
+    ck.floor("SYM", "element helper pairs", nh, 5)
     for name in ("deserial_map_no_length", "deserial_set_no_length"):
         strict_order(ck, "rs", CC, CC + "::impls::" + name)
     # the unchecked variants are used only by the context/schema-directed decoders
@@ -89,3 +123,64 @@ def run(ck):
               "%s is located from the left (%s)" % (what, [t["f"]["name"] for (_, t) in fw]) if ok else
               "%s is not located from the left with the expected separator (forward: %s, reverse: %s): names whose later part contains the separator are split wrongly"
               % (what, [t["f"]["name"] for (_, t) in fw], [t["f"]["name"] for (_, t) in rv]), f.loc())
+    name_grammar_rules(ck)
+
+
+# the documented grammar of the three name validators (doc comments of types.rs): which predicate must hold (True) or must not
+# hold (False) on the accepting path, and the relation of the length to MAX_FUNC_NAME_SIZE under which the name is refused
+NAME_GRAMMAR = {
+    "::types::ContractName::<'a>::is_valid_contract_name": ({"starts_with": True, "contains": False, "all": True}, "Gt",
+                                                            "at most MAX_FUNC_NAME_SIZE bytes, starts with init_, no '.', ascii alphanumeric or punctuation"),
+    "::types::ReceiveName::<'a>::is_valid_receive_name": ({"contains": True, "all": True}, "Gt",
+                                                          "at most MAX_FUNC_NAME_SIZE bytes, contains a '.', ascii alphanumeric or punctuation"),
+    "::types::is_valid_entrypoint_name": ({"all": True}, "Ge", "fewer than MAX_FUNC_NAME_SIZE bytes, ascii alphanumeric or punctuation"),
+}
+
+
+def name_grammar_rules(ck):
+    c = crate("rs", CC)
+    for suffix, (preds, lenrel, doc) in sorted(NAME_GRAMMAR.items()):
+        f = getfn(ck, "rs", CC, CC + suffix)
+        if not f:
+            continue
+        acc, _ = f.accept_points()
+        conds = {}
+        for a in acc:
+            for (kind, names, val) in rules.conditions_at(f, a):
+                if kind.startswith("call:"):
+                    conds.setdefault(kind[5:], set()).add(val)
+        for pn, want in sorted(preds.items()):
+            got = conds.get(pn)
+            ck.ob("CMP", f.path, "grammar:%s" % pn, got == {want},
+                  "accepts only when %s(..) is %s (%s)" % (pn, want, doc) if got == {want} else
+                  "the accepting path requires %s(..) to be %s, the documented grammar requires %s (%s)" % (pn, sorted(got) if got else "untested", want, doc), f.loc())
+        # the length limit
+        n = 0
+        for cx in rules.comparisons(f):
+            for side in ("a", "b"):
+                o = f.origins(cx[side])
+                if not any(a[0] == "const" and a[1].endswith("constants::MAX_FUNC_NAME_SIZE") for a in o):
+                    continue
+                rel, d = rules.cmp_rejects(f, cx)
+                if rel is not None and side == "a":
+                    rel = rules.FLIP[rel]
+                n += 1
+                ck.ob("CMP", f.path, "grammar:length", rel == lenrel,
+                      "refuses exactly when len %s MAX_FUNC_NAME_SIZE (%s)" % ({"Gt": ">", "Ge": ">="}[lenrel], doc) if rel == lenrel else
+                      "refuses when len %s MAX_FUNC_NAME_SIZE, the documented grammar refuses when len %s it (%s)" % (rel, lenrel, doc), f.loc(cx["bb"]))
+        ck.ob("CMP", f.path, "grammar:length-tested", n == 1, "%d comparison(s) with MAX_FUNC_NAME_SIZE" % n, f.loc(), nontrivial=False)
+        # the character class: the closure handed to `all` answers with is_ascii_alphanumeric / is_ascii_punctuation, unnegated
+        for q in sorted(c.paths()):
+            if not q.startswith(f.path + "::{closure#"):
+                continue
+            g = Fn(c.get_all(q)[0])
+            cl = sorted(set(t["f"]["path"].split("::")[-1] for (_, t) in g.calls(r"is_ascii_[a-z]+$")))
+            if not cl:
+                continue
+            o = g.origins(0, deep=True)
+            neg = any(a[0] == "un" and a[1] == "Not" for a in o)
+            # `a || b` answers the constant true when a holds and b otherwise; `a && b` would answer the constant false
+            lits = set(a[1] for a in o if a[0] == "lit")
+            ok = cl == ["is_ascii_alphanumeric", "is_ascii_punctuation"] and not neg and lits <= {1}
+            ck.ob("CMP", q, "grammar:character-class", ok,
+                  "characters are accepted iff ascii alphanumeric or ascii punctuation" if ok else "character class is %s%s%s, documented: is_ascii_alphanumeric || is_ascii_punctuation" % (cl, " (negated)" if neg else "", " combined so that a constant false is answered (conjunction)" if not lits <= {1} else ""), g.loc())
